@@ -37,8 +37,11 @@ def check(ctx: Ctx) -> None:
         ctx.guard("R10.3", F.GEN, F.cursor_updates, ctx, r, "R10.3")
         ctx.guard("R10.3", F.GEN, F.length_arithmetic, ctx, r, "R10.3")
         ctx.guard("R10.4", F.GEN, F.refill_consistency, ctx, r, "R10.4")
+        ctx.guard("R10.6", F.GEN, F.trim_pair, ctx, r, "R10.6")
     ctx.guard("R10.t", F.GEN, F.framing_cases, ctx, "R10.t", truncation=True, level=1 if thorough else 0)
     ctx.guard("R10.g", F.GEN, F.garbage_cases, ctx, "R10.g")
+    if thorough:
+        ctx.guard("R10.big", F.GEN, F.big_stream_case, ctx, "R10.big")
     ctx.guard("R10.5", "consumers", consumers, ctx)
 
 
@@ -67,7 +70,7 @@ SPEC = PropSpec(
     pid="C10",
     title="Framing terminates on every finite source and yields only complete packets",
     check=check,
-    floors={"R10.1": 2, "R10.2": 1, "R10.3": 4, "R10.4": 2, "R10.t": 20, "R10.g": 8, "R10.5": 4},
+    floors={"R10.1": 2, "R10.2": 1, "R10.3": 4, "R10.4": 2, "R10.6": 1, "R10.t": 20, "R10.g": 8, "R10.5": 4},
     explanation=("R10.1 must-facts over the CFG of ccsds_generator: on every path - including the paths on which the "
                  "reader returned nothing - `len(B)-P >= 6` holds at the header slice and `len(B)-P >= N` at the packet "
                  "slice; a violation is reported with the witness path refill-break -> slice -> yield. R10.2 every "
